@@ -2,10 +2,10 @@ package loadbalancer
 
 import (
 	"hash/fnv"
-	"net"
 	"net/http"
-	"strings"
 	"sync"
+
+	"github.com/0xReLogic/Helios/internal/utils"
 )
 
 // IPHashConsistentStrategy implements IP hash with Jump Consistent Hash algorithm.
@@ -76,28 +76,11 @@ func (iph *IPHashConsistentStrategy) NextBackend(r *http.Request) *Backend {
 		return nil
 	}
 
-	// Get the client's IP address
-	// In a real-world scenario, you might want to trust X-Forwarded-For or X-Real-IP
-	// based on your infrastructure setup.
-	ipStr := r.Header.Get("X-Forwarded-For")
-	if ipStr == "" {
-		ipStr = r.Header.Get("X-Real-IP")
-	}
-	if ipStr == "" {
-		// Fallback to RemoteAddr
-		ip, _, err := net.SplitHostPort(r.RemoteAddr)
-		if err != nil {
-			// If SplitHostPort fails, it might be because there is no port.
-			ipStr = r.RemoteAddr
-		} else {
-			ipStr = ip
-		}
-	}
-
-	// If X-Forwarded-For has multiple IPs, take the first one.
-	if strings.Contains(ipStr, ",") {
-		ipStr = strings.Split(ipStr, ",")[0]
-	}
+	// Get the client's IP address the same way the rest of Helios does (rate limiter,
+	// logging): first X-Forwarded-For element with surrounding whitespace removed, then
+	// X-Real-IP, then the peer address. Hashing the untrimmed text made "1.2.3.4 , 5.6.7.8"
+	// and "1.2.3.4, 5.6.7.8" two different clients.
+	ipStr := utils.GetClientIP(r)
 
 	// Hash the IP address
 	hash := fnv.New32a()
